@@ -32,7 +32,7 @@ def one(cand):
     prop = meta.get('property') or os.path.basename(os.path.dirname(cand))[:3]
     n = os.path.basename(cand)
     parent = os.path.basename(os.path.dirname(cand))
-    for suffix, shift in (('.out2', 2), ('.out3', 4), ('.out4', 6), ('.out5', 8), ('.out6', 10), ('.out7', 12), ('.out8', 14)):   # later rounds of seeding
+    for suffix, shift in (('.out2', 2), ('.out3', 4), ('.out4', 6), ('.out5', 8), ('.out6', 10), ('.out7', 12), ('.out8', 14), ('.out9', 16)):   # later rounds of seeding
         if parent.endswith(suffix) and n.isdigit():
             n = str(int(n) + shift)
             break
